@@ -179,7 +179,7 @@ func edCheckC08(work bool, file string, ops []edOp) (sig, info string) {
 		}
 		if name == "require" && want[i] == typed[i] && edRequireDetail(run.Typed, run.Reparsed) == "require-indirect" {
 			// prediction = typed list, only indirect flags differ from the re-parse: name the recorded structural cause
-			if d := edIndirectDetail(run); d == edSigRemainder {
+			if d := edIndirectDetail(run); d == edSigRemainder || d == edSigEmptyBlockSuffix {
 				name = d
 			}
 		}
@@ -267,8 +267,27 @@ func edShrinkFile(work bool, file string, ops []edOp, sig string, chk func(bool,
 	return strings.Join(lines, "")
 }
 
+// deterministic sessions of the recorded finding "empty-block-suffix-comment", run on every check: a line is put
+// into `verb () // comment`, Cleanup collapses the block and appends the block's end-of-line comment to the line
+var edFixedSessions = []struct {
+	work bool
+	file string
+	ops  []edOp
+}{
+	{false, "module m\nrequire () // indirect\n", []edOp{{Name: "require", A: []string{"example.com/a", "v1.0.0"}}, {Name: "cleanup"}}},
+	{false, "module m\nretract () // why\n", []edOp{{Name: "retract", A: []string{"v1.0.0", "v1.0.0", ""}}, {Name: "cleanup"}}},
+	{true, "go 1.21\nuse () // why\n", []edOp{{Name: "use", A: []string{"./a", ""}}, {Name: "cleanup"}}},
+}
+
 func edOracleLoop(g *Gen, n int, tag string, chk func(bool, string, []edOp) (string, string)) {
 	seen := map[string]bool{}
+	for _, fx := range edFixedSessions {
+		g.Case(tag + ":fixed")
+		if sig, info := chk(fx.work, fx.file, fx.ops); sig != "" && !seen[sig] {
+			seen[sig] = true
+			g.Fail(sig, info+" || file: "+strings.ReplaceAll(fx.file, "\n", "\\n"), edSessionLine(fx.work, fx.file, fx.ops))
+		}
+	}
 	for i := 0; i < n; i++ {
 		work := g.Chance(25)
 		file, ops, _ := edGenSession(g.Rand, work)
